@@ -456,9 +456,18 @@ func (e *EntitlementMapAccess) Image(gauge common.MemoryGauge, inputs Access, po
 		output := orderedmap.New[EntitlementOrderedSet](inputs.Entitlements.Len())
 
 		var err error
+		var hasUnmappedDisjunct bool
 		inputs.Entitlements.Foreach(func(entitlement *EntitlementType, _ struct{}) {
 			entitlementImage := e.entitlementImage(entitlement)
 			output.SetAll(entitlementImage)
+
+			// A holder of a disjunction might only hold an entitlement that the map
+			// does not map to anything, so nothing can be granted for the disjunction
+			if inputs.SetKind == Disjunction &&
+				entitlementImage.Len() == 0 {
+
+				hasUnmappedDisjunct = true
+			}
 
 			// The image of a single element is always a conjunctive set;
 			// consider a mapping M defined as X -> Y, X -> Z, A -> B, A -> C. M(X) = Y & Z and M(A) = B & C.
@@ -481,7 +490,7 @@ func (e *EntitlementMapAccess) Image(gauge common.MemoryGauge, inputs Access, po
 		}
 
 		// the image of a set through a map is the conjunction of all the output sets
-		if output.Len() == 0 {
+		if output.Len() == 0 || hasUnmappedDisjunct {
 			return UnauthorizedAccess, nil
 		}
 
